@@ -33,14 +33,15 @@ where
     T: Hash + Eq + Clone + Ord + Display + Send + Sync,
     A: Clone + Send + Sync,
 {
-    let node_names_count = communities
-        .iter()
-        .flatten()
-        .filter(|n| graph.get_node((*n).clone()).is_some())
-        .count();
-    let sum_names = communities.iter().map(|hs| hs.len()).sum::<usize>();
-    let all_nodes_len = graph.get_all_nodes().len();
-    node_names_count == all_nodes_len && sum_names == all_nodes_len
+    // every member must be a node of the graph and may appear in one community only;
+    // together the communities must contain every node
+    let mut seen: HashSet<&T> = HashSet::new();
+    for name in communities.iter().flatten() {
+        if graph.get_node(name.clone()).is_none() || !seen.insert(name) {
+            return false;
+        }
+    }
+    seen.len() == graph.get_all_nodes().len()
 }
 
 /**
